@@ -170,6 +170,167 @@ def bytews_sites(ctx, fn, rule="D4-BYTEWS"):
     return n_pred
 
 
+def split_rule(ctx, body, paths, al):
+    """D1-SPLIT: how a line is cut into command word and argument, on its normal form:
+         sep  := the FIRST b' ' of the line (bytes.iter().position(|c| c == b' '))
+         word := lossy(bytes[0..sep])  when a separator exists, lossy(bytes) otherwise
+         arg  := bytes[k..] with k the first non-blank position at or after sep  (a cursor that starts at sep and moves one byte per blank, or
+                 sep.. + the position of the first non-blank in that tail)
+       An argument that starts anywhere else loses or gains bytes; a word cut anywhere else is compared wrongly with the command table."""
+    R = "D1-SPLIT"
+    # ---- separator search
+    seps = {}
+    for p in paths:
+        for c in p.conds():
+            if c.term[0] == "discr" and is_call(strip_refs(c.term[1]), "Iterator>::position", "Iterator>::rposition", "::position", "::rposition", "::find", "::rfind"):
+                P = strip_refs(c.term[1])
+                if len(call_args(P)) != 2:
+                    continue
+                clo = strip_refs(call_args(P)[1])
+                if not (isinstance(clo, tuple) and clo and clo[0] == "agg" and clo[1] == "closure"):
+                    continue
+                tbl = char_table(ctx.paths(clo[2]) or [], is_param=lambda t_: strip_refs(t_) == ("param", 2), domain=BYTE_DOMAIN)
+                acc = {ch for ch, v in tbl.items() if v} if tbl and all(v is not None for v in tbl.values()) else None
+                if acc == {" "}:
+                    seps[P] = clo[2]
+
+    def whole_line(t):
+        """t is the line itself: bytes, or the no-op re-slice bytes[0..len]"""
+        t = strip_refs(t)
+        for _ in range(3):
+            if is_index_call(t) and canon_range(call_args(t)[0], call_args(t)[1]) is not None and const_int(canon_range(call_args(t)[0], call_args(t)[1])[0]) == 0 \
+                    and canon_range(call_args(t)[0], call_args(t)[1])[1] == LEN:
+                t = strip_refs(call_args(t)[0])
+        return t == ("param", 1)
+
+    def iter_of_line(t):
+        t = strip_refs(t)
+        while isinstance(t, tuple) and t and t[0] in ("loc", "refmut", "ref"):
+            t = strip_refs(t[2] if t[0] == "loc" and len(t) > 2 else t[1])
+        return is_call(t, "[T]>::iter") and whole_line(call_args(t)[0])
+    good = [P for P in seps if is_call(P, "Iterator>::position") and not is_call(P, "rposition") and iter_of_line(call_args(P)[0])]
+    ctx.check(len(seps) == 1 and len(good) == 1, R, EFB, "separator-search", "the separator is the first b' ' of the line (position over bytes.iter())",
+              "the command/argument separator is not found as the FIRST space byte of the line (%d space searches, %d of them a forward position() over the whole line)" % (len(seps), len(good)), fn_span(body))
+    if len(good) != 1:
+        return
+    SEP = good[0]
+    sep = ("field", ("downcast", SEP, "Some"), 0, "0")
+
+    def sep_found(p):
+        f = [c.fact for c in p.conds() if c.term == ("discr", SEP) or (c.term[0] == "discr" and strip_refs(c.term[1]) == SEP)]
+        return None if not f else (f[-1] == ("eq", 1))
+
+    def is_payload(t):
+        t = strip_refs(t)
+        return isinstance(t, tuple) and len(t) > 2 and t[0] == "field" and t[2] == 0 and isinstance(t[1], tuple) and t[1][0] == "downcast" and t[1][2] == "Some" and strip_refs(t[1][1]) == SEP
+
+    def is_sep(t, plus=(0,)):
+        t = strip_refs(t)
+        if is_payload(t):
+            return 0 in plus
+        return isinstance(t, tuple) and t and t[0] == "binop" and t[1] == "Add" and is_payload(t[2]) and const_int(t[3]) in plus
+    # ---- command word
+    words = 0
+    badw = []
+    for p in ret_paths(paths):
+        subj = [call_args(c.term)[0] for c in p.conds() if is_call(c.term, "str>::starts_with") and const_char(call_args(c.term)[1]) == "@"]
+        subj += [x for (lit, x) in true_str_lits(p)[0] if lit.startswith("@")]
+        for x in subj:
+            lossy = [s_ for s_ in subterms(x) if is_call(s_, "String::from_utf8_lossy")]
+            if not lossy:
+                continue
+            words += 1
+            a = strip_refs(call_args(lossy[0])[0])
+            found = sep_found(p)
+            if found is False or found is None:
+                ok = whole_line(a) and found is False
+            else:
+                ok = is_index_call(a) and whole_line(call_args(a)[0]) and canon_range(call_args(a)[0], call_args(a)[1]) is not None and \
+                    const_int(canon_range(call_args(a)[0], call_args(a)[1])[0]) == 0 and is_sep(canon_range(call_args(a)[0], call_args(a)[1])[1])
+            if not ok:
+                badw.append(term_str(a)[:100])
+    ctx.check(words > 0 and not badw, R, EFB, "command-word", "the command word is bytes[0..sep], or the whole line when there is no space (%d uses)" % words,
+              "the command word is %s: not the bytes before the first space (the whole line when there is none)" % (sorted(set(badw))[:2] or "not derived by from_utf8_lossy"), fn_span(body))
+    ctx.floor(R, EFB, "command-word uses", words, 20)
+    # ---- argument start
+    n = 0
+    bada = []
+    for p in ret_paths(paths):
+        av = unwrap_some(p.env.get(al)) if al is not None else None
+        if av is None:
+            continue
+        n += 1
+        if sep_found(p) is not True:
+            bada.append("an argument without a separator having been found")
+            continue
+        x = strip_refs(av)
+        for _ in range(6):
+            if is_call(x, "OsStrExt>::from_bytes", "OsStr::from_bytes", "::from_bytes", "AsRef", "::as_ref", "Deref>::deref") and len(call_args(x)) == 1 and not is_call(x, EFB):
+                x = strip_refs(call_args(x)[0])
+            else:
+                break
+        # the chain of tails applied to the line, outermost last
+        los = []
+        subjects = []
+        while is_index_call(x) and canon_range(call_args(x)[0], call_args(x)[1]) is not None and not whole_line(x):
+            los.append(canon_range(call_args(x)[0], call_args(x)[1])[0])
+            subjects.append(strip_refs(call_args(x)[0]))
+            x = strip_refs(call_args(x)[0])
+        los.reverse()
+        subjects.reverse()
+        if not whole_line(x) or not los:
+            bada.append("the argument is not cut from the line")
+            continue
+        lo0 = strip_refs(los[0])
+        if len(los) == 1 and isinstance(lo0, tuple) and lo0[0] == "havoc" and len(lo0) > 3:
+            # cursor form: starts at sep, +1 per blank byte of bytes[sep..], stops at the first non-blank
+            h = lo0[2]
+            cur = lo0[1]
+            okc = is_sep(lo0[3], plus=(0, 1))
+            backs = [q for q in paths if q.end[0] == "back" and q.end[1] == h]
+            okc = okc and bool(backs)
+            for q in backs:
+                nx = [c for c in q.conds() if c.term[0] == "discr" and is_call(strip_refs(c.term[1]), "Iterator>::next") and c.bb in body.loops.get(h, ())]
+                item = ("field", ("downcast", nx[-1].term[1], "Some"), 0, "0") if nx else None
+                blank = [c for c in q.conds() if item is not None and is_call(c.term, "is_ascii_whitespace") and strip_refs(call_args(c.term)[0]) in (item, ("deref", item))]
+                v = q.env.get(cur)
+                step = isinstance(v, tuple) and v[0] == "binop" and v[1] == "Add" and isinstance(v[2], tuple) and v[2][0] == "havoc" and v[2][1] == cur and const_int(v[3]) == 1
+                # the loop walks bytes[sep..] (the same starting point as the cursor)
+                src = [s_ for s_ in subterms(nx[-1].term) if is_index_call(s_)] if nx else []
+                walks = bool(src) and whole_line(call_args(src[0])[0]) and canon_range(call_args(src[0])[0], call_args(src[0])[1]) is not None and \
+                    strip_refs(canon_range(call_args(src[0])[0], call_args(src[0])[1])[0]) == strip_refs(lo0[3])
+                okc = okc and bool(nx) and nx[-1].fact == ("eq", 1) and bool(blank) and blank[-1].fact == ("eq", True) and step and walks
+            # this path left the loop at the first non-blank byte (or at the end) without moving the cursor any further
+            nxp = [c for c in p.conds() if c.term[0] == "discr" and is_call(strip_refs(c.term[1]), "Iterator>::next") and c.bb in body.loops.get(h, ())]
+            if nxp and nxp[-1].fact == ("eq", 1):
+                item = ("field", ("downcast", nxp[-1].term[1], "Some"), 0, "0")
+                blank = [c for c in p.conds() if is_call(c.term, "is_ascii_whitespace") and strip_refs(call_args(c.term)[0]) in (item, ("deref", item))]
+                okc = okc and bool(blank) and blank[-1].fact == ("eq", False)
+            elif not nxp:
+                okc = False
+            if not okc:
+                bada.append("the cursor the argument starts at does not start at the separator and move one byte per leading blank")
+        elif len(los) == 2 and is_sep(lo0, plus=(0, 1)):
+            # search form: bytes[sep..][position of the first non-blank ..]
+            l1 = strip_refs(los[1])
+            okp = isinstance(l1, tuple) and l1[0] == "field" and l1[2] == 0 and isinstance(l1[1], tuple) and l1[1][0] == "downcast" and l1[1][2] == "Some" and is_call(strip_refs(l1[1][1]), "Iterator>::position")
+            if okp:
+                P2 = strip_refs(l1[1][1])
+                it = strip_refs(call_args(P2)[0])
+                while isinstance(it, tuple) and it and it[0] in ("loc", "refmut", "ref"):
+                    it = strip_refs(it[2] if it[0] == "loc" and len(it) > 2 else it[1])
+                clo = strip_refs(call_args(P2)[1])
+                tbl = char_table(ctx.paths(clo[2]) or [], is_param=lambda t_: strip_refs(t_) == ("param", 2), domain=BYTE_DOMAIN) if isinstance(clo, tuple) and clo[:2] == ("agg", "closure") else None
+                # the predicate is "not a blank": it rejects the space (the exact blank set is D4-BLANKSET's)
+                okp = is_call(it, "[T]>::iter") and strip_refs(call_args(it)[0]) == subjects[1] and bool(tbl) and tbl.get(" ") is False and tbl.get("a") is True and not is_call(P2, "rposition")
+            if not okp:
+                bada.append("the argument does not start at the first non-blank byte of the text after the separator")
+        else:
+            bada.append("the argument starts at %s" % term_str(lo0)[:80])
+    ctx.check(n > 0 and not bada, R, EFB, "argument-start", "the argument starts at the first non-blank byte at or after the separator (%d paths)" % n,
+              "%s: only leading blanks after the command word may be removed from an argument" % (sorted(set(bada))[0] if bada else "no path produces an argument"), fn_span(body))
+
+
 def run(ctx):
     fx = ctx.fx
     sp = spec("plist.json")
@@ -193,6 +354,7 @@ def run(ctx):
                 o = [x for x in pos if not x[0].startswith("@")]
                 opt = o[0][0] if o else None
             table.setdefault((is_cmd, cmd, st, opt), []).append(p)
+        split_rule(ctx, body, paths, al)
         # D1-ARG-EMPTY: an argument exists (Some) only when bytes remain after the leading blanks were skipped: the path that builds Some(..)
         #               has established cursor != end (however it is tested); otherwise `@cmd   ` would carry an empty argument
         somep = [p for p in ret_paths(paths) if al is not None and unwrap_some(p.env.get(al)) is not None]
@@ -202,6 +364,16 @@ def run(ctx):
             ix = [s_ for s_ in subterms(av) if is_index_call(s_)]
             lo = canon_range(call_args(ix[0])[0], call_args(ix[0])[1])[0] if ix and canon_range(call_args(ix[0])[0], call_args(ix[0])[1]) else None
             est = False
+            # the argument starts at a position FOUND in the very text it is cut from (x[x.iter().position(..)?..]): that byte exists, so bytes remain
+            if ix and lo is not None:
+                l0 = strip_refs(lo)
+                if isinstance(l0, tuple) and l0[0] == "field" and l0[2] == 0 and isinstance(l0[1], tuple) and l0[1][0] == "downcast" and l0[1][2] == "Some" \
+                        and is_call(strip_refs(l0[1][1]), "Iterator>::position"):
+                    src = strip_refs(call_args(strip_refs(l0[1][1]))[0])
+                    while isinstance(src, tuple) and src and src[0] in ("loc", "refmut", "ref"):
+                        src = strip_refs(src[2] if src[0] == "loc" and len(src) > 2 else src[1])
+                    if is_call(src, "[T]>::iter") and strip_refs(call_args(src)[0]) == strip_refs(call_args(ix[0])[0]) and canon_range(call_args(ix[0])[0], call_args(ix[0])[1])[1] == LEN:
+                        est = True
             for c in p.conds():
                 t = c.term
                 if isinstance(t, tuple) and t and t[0] == "binop" and t[1] in ("Eq", "Ne", "Lt", "Ge", "Gt", "Le") and lo is not None and c.fact[0] == "eq" and isinstance(c.fact[1], bool):
@@ -373,6 +545,13 @@ def run(ctx):
                 else:
                     break
             good = False
+            # a tail of a tail is a tail: rest = bytes[a..]; rest[b..]
+            while is_index_call(x) and is_index_call(strip_refs(call_args(x)[0])) and canon_range(call_args(x)[0], call_args(x)[1]) is not None \
+                    and canon_range(call_args(x)[0], call_args(x)[1])[1] == LEN \
+                    and canon_range(call_args(strip_refs(call_args(x)[0]))[0], call_args(strip_refs(call_args(x)[0]))[1]) is not None \
+                    and canon_range(call_args(strip_refs(call_args(x)[0]))[0], call_args(strip_refs(call_args(x)[0]))[1])[1] == LEN \
+                    and const_int(canon_range(call_args(strip_refs(call_args(x)[0]))[0], call_args(strip_refs(call_args(x)[0]))[1])[0]) != 0:
+                x = strip_refs(call_args(x)[0])
             if is_index_call(x):
                 inner = strip_refs(call_args(x)[0])
                 # bytes, or the no-op re-slice bytes[0..len]
